@@ -901,3 +901,129 @@ Proof.
     change bt_upper_per_msg with 16 in *. lia. }
   change bt_upper_base with 48. lia.
 Qed.
+
+(* ---------- ConfigChange ---------- *)
+Lemma cc_fields_wf c : wf_cc c -> Forall wf_field (cc_to_fields c).
+Proof. intros (A & B & C & D). unfold cc_to_fields. apply lt63_lt64 in D. fields_wf. Qed.
+
+Lemma cc_roundtrip_proved c : wf_cc c -> cc_decode (cc_encode c) = Some c.
+Proof.
+  intros H. pose proof H as (A & B & C & D).
+  unfold cc_decode, cc_encode. rewrite decode_with_enc by (apply cc_fields_wf; exact H).
+  destruct c as [a b c0 d e]. cbn [cc_to_fields fold_fields cc_step cc_zero cc_id cc_type cc_replica cc_address cc_init] in *.
+  rewrite dec_enc_i32 by exact B. rewrite dec_enc_bool. reflexivity.
+Qed.
+
+Lemma cc_size_exact_proved c : nlen (cc_encode c) = cc_size c.
+Proof. unfold cc_encode, cc_to_fields, cc_size. size_simpl. unfold szv. rewrite sov_enc_bool. lia. Qed.
+
+(* ---------- RaftDataStatus ---------- *)
+Lemma rds_fields_wf s : wf_rds s -> Forall wf_field (rds_to_fields s).
+Proof.
+  intros (A & B & C & D & E & F & G & H & I & J). unfold rds_to_fields.
+  apply lt63_lt64 in A, D, E. apply lt32_lt64 in B. fields_wf.
+Qed.
+
+Lemma rds_roundtrip_proved s : wf_rds s -> rds_decode (rds_encode s) = Some s.
+Proof.
+  intros H. pose proof H as (A & B & C & D & E & F & G & H1 & I & J).
+  unfold rds_decode, rds_encode. rewrite decode_with_enc by (apply rds_fields_wf; exact H).
+  destruct s as [a b c d e f g h i j k].
+  cbn [rds_to_fields fold_fields rds_step rds_zero rds_address rds_binver rds_hardhash rds_logdbtype
+       rds_hostname rds_deployment rds_stepworkers rds_logdbshards rds_maxsessions rds_entrybatch
+       rds_addr_by_nhid] in *.
+  rewrite dec_u32_small by exact B. rewrite dec_enc_bool. reflexivity.
+Qed.
+
+Lemma rds_size_exact_proved s : nlen (rds_encode s) = rds_size s.
+Proof. unfold rds_encode, rds_to_fields, rds_size. size_simpl. unfold szv. rewrite sov_enc_bool. lia. Qed.
+
+(* ---------- SnapshotHeader ---------- *)
+Lemma sh_fields_wf s : wf_sh s -> Forall wf_field (sh_to_fields s).
+Proof.
+  intros (A & B & C & D & E & F & G & H & I). unfold sh_to_fields. guards.
+  rewrite !Forall_app. repeat split.
+  - apply lt63_lt64 in D. fields_wf.
+  - apply opt_field_wf; [apply wf_num_lit; reflexivity|apply lt63_lt64; exact E].
+  - apply opt_field_wf; [apply wf_num_lit; reflexivity|apply lt63_lt64; exact F].
+  - fields_wf.
+Qed.
+
+Lemma sh_roundtrip_proved s : wf_sh s -> sh_decode (sh_encode s) = Some s.
+Proof.
+  intros H. pose proof H as (A & B & C & D & E & F & G & H1 & I).
+  unfold sh_decode, sh_encode. rewrite decode_with_enc by (apply sh_fields_wf; exact H).
+  unfold sh_to_fields. guards.
+  destruct s as [a b c d e f g h i].
+  cbn [sh_session_size sh_datastore_size sh_unreliable_time sh_git_version sh_header_checksum
+       sh_payload_checksum sh_checksum_type sh_version sh_compression_type] in *.
+  destruct e as [e|]; destruct f as [f|];
+    cbn [opt_field app fold_fields sh_step sh_zero]; rewrite !dec_enc_i32 by assumption; reflexivity.
+Qed.
+
+Lemma sh_size_exact_proved s : nlen (sh_encode s) = sh_size s.
+Proof. unfold sh_encode, sh_to_fields, sh_size. guards. size_simpl. lia. Qed.
+
+(* ---------- Bootstrap ---------- *)
+Lemma bs_fields_wf b : wf_bs b -> Forall wf_field (bs_to_fields b).
+Proof.
+  intros (A & B). unfold bs_to_fields. rewrite Forall_app. split.
+  - apply smap_fields_wf; [apply wf_num_lit; reflexivity|exact A].
+  - fields_wf.
+Qed.
+
+Lemma bs_roundtrip_proved b : wf_bs b -> bs_decode (bs_encode b) = Some b.
+Proof.
+  intros H. pose proof H as (A & B).
+  unfold bs_decode, bs_encode. rewrite decode_with_enc by (apply bs_fields_wf; exact H).
+  unfold bs_to_fields. rewrite fold_fields_app.
+  rewrite (fold_smap bs_step 1 bs_addresses (fun t x => mkBS x (bs_join t) (bs_type t)));
+    [|intros [] y; reflexivity|intros [] x; reflexivity|intros [] x y; reflexivity|exact A].
+  destruct b as [a j t]. cbn [bs_addresses bs_join bs_type] in *.
+  destruct a as [|kv a]; cbn [fold_fields bs_step bs_zero app bs_addresses bs_join bs_type];
+    rewrite dec_enc_bool, dec_enc_i32 by exact B; reflexivity.
+Qed.
+
+Lemma bs_size_exact_proved b : nlen (bs_encode b) = bs_size b.
+Proof.
+  unfold bs_encode, bs_to_fields, bs_size. size_simpl. rewrite smap_fields_nlen by lia.
+  unfold szv. rewrite sov_enc_bool. lia.
+Qed.
+
+(* ---------- Chunk ---------- *)
+Lemma ck_fields_wf c : wf_ck c -> Forall wf_field (ck_to_fields c).
+Proof.
+  intros (A1 & A2 & A3 & A4 & A5 & A6 & A7 & A8 & A9 & A10 & A11 & A12 & A13 & A14 & A15 & A16 & A17 & A18 & A19).
+  unfold ck_to_fields. guards. rewrite !Forall_app. repeat split.
+  - fields_wf.
+  - apply opt_field_wf; [apply wf_num_lit; reflexivity|apply lt63_lt64; exact A7].
+  - apply lt63_lt64 in A11. apply lt32_lt64 in A17.
+    rewrite <- mb_size_exact_proved in A19. apply lt63_lt64 in A19.
+    pose proof (sf_size_lt _ A16) as S.
+    fields_wf.
+Qed.
+
+Lemma ck_roundtrip_proved c : wf_ck c -> ck_decode (ck_encode c) = Some c.
+Proof.
+  intros H.
+  pose proof H as (A1 & A2 & A3 & A4 & A5 & A6 & A7 & A8 & A9 & A10 & A11 & A12 & A13 & A14 & A15 & A16 & A17 & A18 & A19).
+  unfold ck_decode, ck_encode. rewrite decode_with_enc by (apply ck_fields_wf; exact H).
+  unfold ck_to_fields. guards.
+  destruct c as [a b c0 d e g h i j k l m n o p q r t u v].
+  cbn [ck_shard ck_replica ck_from ck_id ck_size ck_count ck_data ck_index ck_term ck_membership
+       ck_filepath ck_filesize ck_deployment ck_filechunkid ck_filechunkcount ck_hasfileinfo
+       ck_fileinfo ck_binver ck_ondisk ck_witness] in *.
+  destruct h as [h|];
+    cbn [opt_field app fold_fields ck_step ck_zero];
+    fold (mb_decode (mb_encode k)); rewrite mb_roundtrip_proved by exact A10;
+    cbn [fold_fields ck_step];
+    fold (sf_decode (sf_encode r)); rewrite sf_roundtrip_proved by exact A16;
+    cbn [fold_fields ck_step];
+    rewrite !dec_enc_bool, dec_u32_small by exact A17; reflexivity.
+Qed.
+
+Lemma ck_size_exact_proved c : nlen (ck_encode c) = ck_size_of c.
+Proof.
+  unfold ck_encode, ck_to_fields, ck_size_of. guards. size_simpl.
+  rewrite mb_size_exact_proved, sf_size_exact_proved. unfold szv, szv2. rewrite !sov_enc_bool. lia.
+Qed.
